@@ -93,6 +93,9 @@ def run_batches(res, work, batches, clause_filter=None, nshards=None, want_props
             if not (props & want):
                 for p in props:
                     res.other[p] = res.other.get(p, 0) + 1
+                if "DRIFT" in props and len(res.notes) < 40:
+                    res.notes.append("MODEL-DRIFT: %s step %s %s: recorded instrumentation events differ from the layer-B model (%s); not a verdict" % (
+                        rej["sid"], rej["step"], rej["ev"], ",".join(rej["clauses"])))
                 continue
             scen = by_sid.get(rej["sid"])
             sigs = sig_of_rejection(rej, scen, b.defs)
